@@ -176,10 +176,32 @@ class FileResolver:
                 glob_part = str(Path(*parts[i:]))
                 break
 
+        tool_ignore = self._get_tool_ignore(root)
+
         for path in root.glob(glob_part):
             if path.is_file() and self._include_spec.match_file(path.name):
+                if self._is_glob_match_excluded(path, tool_ignore):
+                    continue
                 if not self._exceeds_max_size(path):
                     yield path
+
+    def _is_glob_match_excluded(self, path: Path, tool_ignore: pathspec.PathSpec | None) -> bool:
+        """
+        Apply the same exclusions to a glob match as directory traversal does: skip files
+        below an excluded directory and files matched by the tool ignore file.
+        """
+        dir_parts = path.parts[:-1]
+        for i, part in enumerate(dir_parts):
+            if part in ("", ".", "..", path.anchor):
+                continue
+            name_with_slash = part + "/"
+            rel_with_slash = str(Path(*dir_parts[: i + 1])) + "/"
+            for spec in (self._exclude_spec, tool_ignore):
+                if spec and (spec.match_file(name_with_slash) or spec.match_file(rel_with_slash)):
+                    return True
+        if tool_ignore and tool_ignore.match_file(path.name):
+            return True
+        return False
 
     def _exceeds_max_size(self, path: Path) -> bool:
         """Check if a file exceeds the configured max size. 0 = no limit."""
